@@ -897,6 +897,45 @@ func (e *Enc) evalCall(sc *Scope, n *CCall, hint types.Type) Val {
 				a.Typ = t
 			}
 			return a
+		case "bsEmpty", "bsAppend", "bsTake", "bsCap":
+			// ghost bit-stream window (256 bits, right-aligned: the first bit written is the most
+			// significant of the n bits held). bsAppend(s, u, k): s followed by the k low bits of u.
+			// bsTake(s, n, pos, k): the k bits at positions [pos, pos+k) of the n-bit stream s, as uint64.
+			bt := e.resolveTypeName(sc, "verifspec.Bits256")
+			if bt == nil {
+				panic(unsupported("verifspec.Bits256 is not imported by this package"))
+			}
+			if e.idxSort().K != SBV {
+				panic(unsupported("bit-stream ghost functions need mode bv"))
+			}
+			bw := e.bitsWidth()
+			z192 := func(t T) string { return fmt.Sprintf("((_ zero_extend %d) %s)", bw-64, t.E) }
+			mask := func(k T) string { // mask of k low bits (k: 64-bit vector, k <= 64 intended)
+				return fmt.Sprintf("(bvsub (bvshl (_ bv1 %d) %s) (_ bv1 %d))", bw, z192(k), bw)
+			}
+			switch id.Name {
+			case "bsCap":
+				return Val{Typ: types.Typ[types.Int], L: []T{IntLit64(e.idxSort(), int64(bw))}}
+			case "bsEmpty":
+				return Val{Typ: bt, L: []T{{BV(bw), fmt.Sprintf("(_ bv0 %d)", bw)}}}
+			case "bsAppend":
+				s := e.eval(sc, n.Args[0], bt)
+				u := e.eval(sc, n.Args[1], types.Typ[types.Uint64])
+				k := e.eval(sc, n.Args[2], types.Typ[types.Int])
+				if u.L[0].S.W != 64 {
+					panic(unsupported("bsAppend needs a 64-bit value"))
+				}
+				r := app("bvor", app("bvshl", s.L[0].E, z192(k.L[0])), app("bvand", z192(u.L[0]), mask(k.L[0])))
+				return Val{Typ: bt, L: []T{{BV(bw), r}}}
+			default:
+				s := e.eval(sc, n.Args[0], bt)
+				nn := e.eval(sc, n.Args[1], types.Typ[types.Int])
+				pos := e.eval(sc, n.Args[2], types.Typ[types.Int])
+				k := e.eval(sc, n.Args[3], types.Typ[types.Int])
+				sh := T{BV(64), app("bvsub", app("bvsub", nn.L[0].E, pos.L[0].E), k.L[0].E)}
+				r := "((_ extract 63 0) " + app("bvand", app("bvlshr", s.L[0].E, z192(sh)), mask(k.L[0])) + ")"
+				return Val{Typ: types.Typ[types.Uint64], L: []T{{BV(64), r}}}
+			}
 		case "errIs":
 			a := e.eval(sc, n.Args[0], nil)
 			b := e.eval(sc, n.Args[1], nil)
